@@ -10,7 +10,13 @@
 //! stdin, one scenario per line:
 //!   [mode: send|local-adapter|local-native|remote-shim |] actors: <cfg> ; <cfg> ... | msgs: <id>=<script> ; ... | ops: <op> ; <op> ...
 //!   cfg    = pre=<script> ps=<script> stop=<script> sup=def|<script> link=-|<n>
-//!   script = <eff>,<eff>,.../ok | /e<k> | /p<k>      (no effects: "/ok")
+//!   script = <eff>,<eff>,.../ok | /e<k> | /f<k> | /p<k> | /q<k> | /z<k>      (no effects: "/ok")
+//!            e: Err(String "t<k>")   f: Err(Box<custom error type> displaying "t<k>")
+//!            p: panic!(String "t<k>")   q: panic with a &'static str payload "t<k>"
+//!            z: panic_any(<k> as u64), a payload that is no string: the runtime reports the fixed text
+//!               "Unknown panic occurred ..." (logged and modelled as text code 998)
+//!   sup=tdef: like sup=def, but the host type does NOT override handle_supervisor_evt: the trait's own
+//!            default body runs (nothing can be logged for it)
 //!   eff    = g<n> | t | s<a>:<m> | x<a>:n | x<a>:<r> | k<a> | d<a>
 //!   op     = spawn <a> | send <a> <m> | stop <a> n|<r> | kill <a> | drain <a> | open <g> | abort <a> | settle
 //!
@@ -68,8 +74,24 @@ enum Eff {
 enum Fin {
     Ok,
     Err(u64),
+    ErrBox(u64),
     Panic(u64),
+    PanicStr(u64),
+    PanicAny(u64),
 }
+
+/// an error type of the user's own (not a String): ActorFailed must carry its Display text
+#[derive(Debug)]
+struct UserErr(u64);
+impl std::fmt::Display for UserErr {
+    fn fmt(&self, f: &mut std::fmt::Formatter<'_>) -> std::fmt::Result {
+        write!(f, "t{}", self.0)
+    }
+}
+impl std::error::Error for UserErr {}
+
+/// text code of get_panic_string's fallback for payloads that are neither String nor &str
+const UNKNOWN_PANIC: u64 = 998;
 #[derive(Clone, Debug)]
 struct Script(Vec<Eff>, Fin);
 
@@ -79,6 +101,8 @@ struct Cfg {
     ps: Script,
     stop: Script,
     sup: Option<Script>,
+    /// sup=tdef: the trait's own default supervision handler (host without override)
+    tdef: bool,
     link: Option<usize>,
 }
 
@@ -95,6 +119,18 @@ struct Ctx {
     msgs: HashMap<u64, Script>,
     start_abort: Mutex<HashMap<usize, AbortHandle>>,
     loop_abort: Mutex<HashMap<usize, AbortHandle>>,
+    /// per actor: the counter its State carried after the last callback that got `&mut State`
+    finals: Mutex<HashMap<usize, u64>>,
+    /// ActorTerminated events whose boxed state was not the subject's final state
+    bad_state: Mutex<Vec<String>>,
+}
+
+/// State of the Send / remote hosts: reported to the supervisor on a graceful exit
+/// (SupervisionEvent::ActorTerminated(_, Some(BoxedState), _)); the harness checks that what arrives
+/// IS the subject's state as its last callback left it (BoxedState::take).
+struct HState {
+    me: usize,
+    n: u64,
 }
 
 impl Ctx {
@@ -131,8 +167,9 @@ impl Ctx {
 fn fin_str(f: &Fin) -> String {
     match f {
         Fin::Ok => "ROk".into(),
-        Fin::Err(t) => format!("(RErr {t})"),
-        Fin::Panic(t) => format!("(RPanic {t})"),
+        Fin::Err(t) | Fin::ErrBox(t) => format!("(RErr {t})"),
+        Fin::Panic(t) | Fin::PanicStr(t) => format!("(RPanic {t})"),
+        Fin::PanicAny(_) => format!("(RPanic {UNKNOWN_PANIC})"),
     }
 }
 fn oreason(r: &Option<u64>) -> String {
@@ -154,6 +191,9 @@ fn reason_code(r: &Option<String>) -> Option<u64> {
     })
 }
 fn text_code(s: &str) -> u64 {
+    if s == "Unknown panic occurred which couldn't be coerced to a string" {
+        return UNKNOWN_PANIC;
+    }
     s.strip_prefix('t').and_then(|k| k.parse::<u64>().ok()).unwrap_or(999)
 }
 
@@ -229,7 +269,13 @@ async fn run_script(ctx: &Arc<Ctx>, me: usize, cb: String, script: &Script) -> R
     match script.1 {
         Fin::Ok => Ok(()),
         Fin::Err(t) => Err(format!("t{t}").into()),
+        Fin::ErrBox(t) => Err(Box::new(UserErr(t))),
         Fin::Panic(t) => panic!("t{t}"),
+        Fin::PanicStr(t) => {
+            let s: &'static str = Box::leak(format!("t{t}").into_boxed_str());
+            std::panic::panic_any(s)
+        }
+        Fin::PanicAny(t) => std::panic::panic_any(t),
     }
 }
 
@@ -259,8 +305,10 @@ impl ractor::Message for HMsg {
     }
 }
 
-/// One scripted actor's identity and scripts; the callback bodies are shared by the three hosts
-/// (`H`: Send actor, `HL`: Send actor behind the thread-local adapter, `HN`: native thread-local).
+/// One scripted actor's identity and scripts; the callback bodies are shared by all hosts
+/// (`H`/`HT`: Send actor, `HR`/`HRT`: Send actor with a remote ActorId, `HL`/`HLT`: Send actor behind
+/// the thread-local adapter, `HN`/`HNT`: native thread-local; the `..T` twins leave
+/// handle_supervisor_evt to the trait's default).
 #[derive(Clone)]
 struct Me {
     ctx: Arc<Ctx>,
@@ -269,6 +317,11 @@ struct Me {
 }
 
 impl Me {
+    /// a callback got `&mut State`: count it in the state and remember what the state now says
+    fn bump(&self, st: &mut HState) {
+        st.n += 1;
+        self.ctx.finals.lock().unwrap().insert(self.me, st.n);
+    }
     async fn cb_pre_start(&self) -> Result<(), ActorProcessingErr> {
         run_script(&self.ctx, self.me, "PreStart".into(), &self.cfg.pre).await
     }
@@ -283,25 +336,48 @@ impl Me {
         let script = self.ctx.msgs.get(&msg.0).unwrap_or(&empty).clone();
         run_script(&self.ctx, self.me, format!("(Handle {})", msg.0), &script).await
     }
-    async fn cb_sup(&self, evt: SupervisionEvent) -> Result<(), ActorProcessingErr> {
-        let (name, terminal) = match &evt {
-            SupervisionEvent::ActorStarted(who) => (format!("(SStarted {})", self.ctx.index_of(who.get_id())), false),
+    /// the boxed state of a graceful ActorTerminated must be the subject's own final state
+    fn check_state(&self, who: usize, st: &mut ractor::actor::messages::BoxedState) {
+        let verdict = if let Ok(h) = st.take::<HState>() {
+            let want = self.ctx.finals.lock().unwrap().get(&who).cloned().unwrap_or(0);
+            if h.me == who && h.n == want {
+                None
+            } else {
+                Some(format!("{who} state-of-{}-count-{}-expected-{want}", h.me, h.n))
+            }
+        } else {
+            // the adapter's hosts carry `Me` as their state
+            match st.take::<Me>() {
+                Ok(m) if m.me == who => None,
+                Ok(m) => Some(format!("{who} state-of-{}", m.me)),
+                Err(_) => Some(format!("{who} state-of-unknown-type")),
+            }
+        };
+        if let Some(v) = verdict {
+            self.ctx.bad_state.lock().unwrap().push(v);
+        }
+    }
+    async fn cb_sup(&self, mut evt: SupervisionEvent) -> Result<(), ActorProcessingErr> {
+        let who = match evt.actor_cell() {
+            Some(c) => self.ctx.index_of(c.get_id()),
+            // ProcessGroupChanged / PidLifecycleEvent: not produced by these scenarios
+            None => return Ok(()),
+        };
+        let (name, terminal) = match &mut evt {
+            SupervisionEvent::ActorStarted(_) => (format!("(SStarted {who})"), false),
             // the state flag is logged as delivered: always `false` for thread-local children
             // (their state is not Send and is never boxed, thread_local/inner.rs); the oracle's
             // locality argument (check_C04 links locals, coq/Loop/Checks.v) accounts for that, not this log
-            SupervisionEvent::ActorTerminated(who, st, reason) => (
-                format!(
-                    "(STerminated {} {} {})",
-                    self.ctx.index_of(who.get_id()),
-                    coq_bool(st.is_some()),
-                    oreason(&reason_code(reason))
-                ),
-                true,
-            ),
-            SupervisionEvent::ActorFailed(who, err) => (
-                format!("(SFailed {} {})", self.ctx.index_of(who.get_id()), text_code(&err.to_string())),
-                true,
-            ),
+            SupervisionEvent::ActorTerminated(_, st, reason) => {
+                if let Some(b) = st.as_mut() {
+                    self.check_state(who as usize, b);
+                }
+                (
+                    format!("(STerminated {who} {} {})", coq_bool(st.is_some()), oreason(&reason_code(reason))),
+                    true,
+                )
+            }
+            SupervisionEvent::ActorFailed(_, err) => (format!("(SFailed {who} {})", text_code(&err.to_string())), true),
             _ => return Ok(()),
         };
         match &self.cfg.sup {
@@ -319,80 +395,70 @@ impl Me {
     }
 }
 
-/// mode `send`: an ordinary Send actor on the paused main runtime
-struct H(Me);
+/// The Send hosts.  `$remote`: the actor is spawned with a remote ActorId (mode remote-shim): its cell
+/// only exists once spawn_linked_remote has been polled, so pre_start publishes `myself` to the harness,
+/// and its messages arrive through handle_serialized.  `$extra`: the handle_supervisor_evt override, or
+/// nothing (the trait's default body then stops the actor on ActorTerminated / ActorFailed of a child).
+macro_rules! send_host {
+    ($name:ident, $remote:expr, { $($extra:tt)* }) => {
+        struct $name(Me);
 
-#[cfg_attr(feature = "async-trait", ractor::async_trait)]
-impl Actor for H {
-    type Msg = HMsg;
-    type State = ();
-    type Arguments = ();
+        #[cfg_attr(feature = "async-trait", ractor::async_trait)]
+        impl Actor for $name {
+            type Msg = HMsg;
+            type State = HState;
+            type Arguments = ();
 
-    async fn pre_start(&self, _myself: ActorRef<HMsg>, _: ()) -> Result<(), ActorProcessingErr> {
-        self.0.cb_pre_start().await
-    }
-    async fn post_start(&self, _myself: ActorRef<HMsg>, _: &mut ()) -> Result<(), ActorProcessingErr> {
-        self.0.cb_post_start().await
-    }
-    async fn post_stop(&self, _myself: ActorRef<HMsg>, _: &mut ()) -> Result<(), ActorProcessingErr> {
-        self.0.cb_post_stop().await
-    }
-    async fn handle(&self, _myself: ActorRef<HMsg>, msg: HMsg, _: &mut ()) -> Result<(), ActorProcessingErr> {
-        self.0.cb_handle(msg).await
-    }
-    async fn handle_supervisor_evt(
-        &self,
-        _myself: ActorRef<HMsg>,
-        evt: SupervisionEvent,
-        _: &mut (),
-    ) -> Result<(), ActorProcessingErr> {
-        self.0.cb_sup(evt).await
-    }
+            async fn pre_start(&self, myself: ActorRef<HMsg>, _: ()) -> Result<HState, ActorProcessingErr> {
+                if $remote {
+                    self.0.ctx.cells.lock().unwrap().insert(self.0.me, myself.get_cell());
+                    self.0.ctx.ids.lock().unwrap().insert(myself.get_id(), self.0.me);
+                }
+                self.0.cb_pre_start().await?;
+                Ok(HState { me: self.0.me, n: 0 })
+            }
+            async fn post_start(&self, _myself: ActorRef<HMsg>, st: &mut HState) -> Result<(), ActorProcessingErr> {
+                self.0.bump(st);
+                self.0.cb_post_start().await
+            }
+            async fn post_stop(&self, _myself: ActorRef<HMsg>, st: &mut HState) -> Result<(), ActorProcessingErr> {
+                self.0.bump(st);
+                self.0.cb_post_stop().await
+            }
+            async fn handle(&self, _myself: ActorRef<HMsg>, msg: HMsg, st: &mut HState) -> Result<(), ActorProcessingErr> {
+                // never taken for a remote id (process_message hands every message to handle_serialized)
+                self.0.bump(st);
+                self.0.cb_handle(msg).await
+            }
+            async fn handle_serialized(
+                &self,
+                _myself: ActorRef<HMsg>,
+                msg: SerializedMessage,
+                st: &mut HState,
+            ) -> Result<(), ActorProcessingErr> {
+                let m = <HMsg as ractor::Message>::deserialize(msg)?;
+                self.0.bump(st);
+                self.0.cb_handle(m).await
+            }
+            $($extra)*
+        }
+    };
 }
 
-/// mode `remote-shim`: the same scripts behind an actor with a remote ActorId.  The cell only exists
-/// once spawn_linked_remote has been polled, so pre_start publishes `myself` to the harness.
-struct HR(Me);
-
-#[cfg_attr(feature = "async-trait", ractor::async_trait)]
-impl Actor for HR {
-    type Msg = HMsg;
-    type State = ();
-    type Arguments = ();
-
-    async fn pre_start(&self, myself: ActorRef<HMsg>, _: ()) -> Result<(), ActorProcessingErr> {
-        self.0.ctx.cells.lock().unwrap().insert(self.0.me, myself.get_cell());
-        self.0.ctx.ids.lock().unwrap().insert(myself.get_id(), self.0.me);
-        self.0.cb_pre_start().await
-    }
-    async fn post_start(&self, _myself: ActorRef<HMsg>, _: &mut ()) -> Result<(), ActorProcessingErr> {
-        self.0.cb_post_start().await
-    }
-    async fn post_stop(&self, _myself: ActorRef<HMsg>, _: &mut ()) -> Result<(), ActorProcessingErr> {
-        self.0.cb_post_stop().await
-    }
-    async fn handle(&self, _myself: ActorRef<HMsg>, msg: HMsg, _: &mut ()) -> Result<(), ActorProcessingErr> {
-        // never taken for a remote id (process_message hands every message to handle_serialized)
-        self.0.cb_handle(msg).await
-    }
-    async fn handle_serialized(
-        &self,
-        _myself: ActorRef<HMsg>,
-        msg: SerializedMessage,
-        _: &mut (),
-    ) -> Result<(), ActorProcessingErr> {
-        let m = <HMsg as ractor::Message>::deserialize(msg)?;
-        self.0.cb_handle(m).await
-    }
-    async fn handle_supervisor_evt(
-        &self,
-        _myself: ActorRef<HMsg>,
-        evt: SupervisionEvent,
-        _: &mut (),
-    ) -> Result<(), ActorProcessingErr> {
+send_host!(H, false, {
+    async fn handle_supervisor_evt(&self, _myself: ActorRef<HMsg>, evt: SupervisionEvent, st: &mut HState) -> Result<(), ActorProcessingErr> {
+        self.0.bump(st);
         self.0.cb_sup(evt).await
     }
-}
+});
+send_host!(HT, false, {});
+send_host!(HR, true, {
+    async fn handle_supervisor_evt(&self, _myself: ActorRef<HMsg>, evt: SupervisionEvent, st: &mut HState) -> Result<(), ActorProcessingErr> {
+        self.0.bump(st);
+        self.0.cb_sup(evt).await
+    }
+});
+send_host!(HRT, true, {});
 
 /// the invisible supervisor of `link=-` actors in mode remote-shim: hears everything, does nothing
 struct Root;
@@ -417,73 +483,127 @@ impl Actor for Root {
 }
 
 static REMOTE_PID: AtomicU64 = AtomicU64::new(1);
+static SENDS: AtomicU64 = AtomicU64::new(0);
+
+/// A tracing subscriber that is interested in everything and records nothing: with it installed
+/// `tracing::Span::current()` is a real span inside `info_span!(..).enter()`, ractor attaches it to the
+/// messages sent there, and every `tracing::…!` / `#[instrument]` site of the runtime is live.
+struct NullSub {
+    next: AtomicU64,
+    meta: Mutex<HashMap<u64, &'static tracing::Metadata<'static>>>,
+}
+thread_local! {
+    static SPAN_STACK: std::cell::RefCell<Vec<u64>> = const { std::cell::RefCell::new(Vec::new()) };
+}
+impl tracing::Subscriber for NullSub {
+    fn enabled(&self, _: &tracing::Metadata<'_>) -> bool {
+        true
+    }
+    fn new_span(&self, a: &tracing::span::Attributes<'_>) -> tracing::span::Id {
+        let id = self.next.fetch_add(1, Ordering::SeqCst) + 1;
+        let mut m = self.meta.lock().unwrap();
+        if m.len() > 100_000 {
+            m.clear(); // ids of long-gone spans; a stale lookup only makes Span::current() "none"
+        }
+        m.insert(id, a.metadata());
+        tracing::span::Id::from_u64(id)
+    }
+    fn record(&self, _: &tracing::span::Id, _: &tracing::span::Record<'_>) {}
+    fn record_follows_from(&self, _: &tracing::span::Id, _: &tracing::span::Id) {}
+    fn event(&self, _: &tracing::Event<'_>) {}
+    fn enter(&self, id: &tracing::span::Id) {
+        SPAN_STACK.with(|s| s.borrow_mut().push(id.into_u64()));
+    }
+    fn exit(&self, id: &tracing::span::Id) {
+        SPAN_STACK.with(|s| {
+            let mut s = s.borrow_mut();
+            if let Some(k) = s.iter().rposition(|x| *x == id.into_u64()) {
+                s.remove(k);
+            }
+        });
+    }
+    // without this Span::current() is always "none" and no message ever carries a span
+    fn current_span(&self) -> tracing_core::span::Current {
+        let top = SPAN_STACK.with(|s| s.borrow().last().cloned());
+        match top.and_then(|id| self.meta.lock().unwrap().get(&id).map(|m| (id, *m))) {
+            Some((id, m)) => tracing_core::span::Current::new(tracing::span::Id::from_u64(id), m),
+            None => tracing_core::span::Current::none(),
+        }
+    }
+}
 
 /// mode `local-adapter`: a Send actor that is `Default` (the handler is created on the spawner
 /// thread by `T::default()`, so everything per-actor travels in Arguments / State) and is hosted
 /// through ractor's blanket `impl<T: Actor + Default> ThreadLocalActor for T`.
-#[derive(Default)]
-struct HL;
+macro_rules! adapter_host {
+    ($name:ident, { $($extra:tt)* }) => {
+        #[derive(Default)]
+        struct $name;
 
-#[cfg_attr(feature = "async-trait", ractor::async_trait)]
-impl Actor for HL {
-    type Msg = HMsg;
-    type State = Me;
-    type Arguments = Me;
+        #[cfg_attr(feature = "async-trait", ractor::async_trait)]
+        impl Actor for $name {
+            type Msg = HMsg;
+            type State = Me;
+            type Arguments = Me;
 
-    async fn pre_start(&self, _myself: ActorRef<HMsg>, me: Me) -> Result<Me, ActorProcessingErr> {
-        me.cb_pre_start().await?;
-        Ok(me)
-    }
-    async fn post_start(&self, _myself: ActorRef<HMsg>, me: &mut Me) -> Result<(), ActorProcessingErr> {
-        me.cb_post_start().await
-    }
-    async fn post_stop(&self, _myself: ActorRef<HMsg>, me: &mut Me) -> Result<(), ActorProcessingErr> {
-        me.cb_post_stop().await
-    }
-    async fn handle(&self, _myself: ActorRef<HMsg>, msg: HMsg, me: &mut Me) -> Result<(), ActorProcessingErr> {
-        me.cb_handle(msg).await
-    }
-    async fn handle_supervisor_evt(
-        &self,
-        _myself: ActorRef<HMsg>,
-        evt: SupervisionEvent,
-        me: &mut Me,
-    ) -> Result<(), ActorProcessingErr> {
+            async fn pre_start(&self, _myself: ActorRef<HMsg>, me: Me) -> Result<Me, ActorProcessingErr> {
+                me.cb_pre_start().await?;
+                Ok(me)
+            }
+            async fn post_start(&self, _myself: ActorRef<HMsg>, me: &mut Me) -> Result<(), ActorProcessingErr> {
+                me.cb_post_start().await
+            }
+            async fn post_stop(&self, _myself: ActorRef<HMsg>, me: &mut Me) -> Result<(), ActorProcessingErr> {
+                me.cb_post_stop().await
+            }
+            async fn handle(&self, _myself: ActorRef<HMsg>, msg: HMsg, me: &mut Me) -> Result<(), ActorProcessingErr> {
+                me.cb_handle(msg).await
+            }
+            $($extra)*
+        }
+    };
+}
+adapter_host!(HL, {
+    async fn handle_supervisor_evt(&self, _myself: ActorRef<HMsg>, evt: SupervisionEvent, me: &mut Me) -> Result<(), ActorProcessingErr> {
         me.cb_sup(evt).await
     }
-}
+});
+adapter_host!(HLT, {});
 
 /// mode `local-native`: a native ThreadLocalActor; its state is deliberately not Send
-#[derive(Default)]
-struct HN;
+macro_rules! native_host {
+    ($name:ident, { $($extra:tt)* }) => {
+        #[derive(Default)]
+        struct $name;
 
-impl ThreadLocalActor for HN {
-    type Msg = HMsg;
-    type State = (Me, Rc<()>);
-    type Arguments = Me;
+        impl ThreadLocalActor for $name {
+            type Msg = HMsg;
+            type State = (Me, Rc<()>);
+            type Arguments = Me;
 
-    async fn pre_start(&self, _myself: ActorRef<HMsg>, me: Me) -> Result<Self::State, ActorProcessingErr> {
-        me.cb_pre_start().await?;
-        Ok((me, Rc::new(())))
-    }
-    async fn post_start(&self, _myself: ActorRef<HMsg>, st: &mut Self::State) -> Result<(), ActorProcessingErr> {
-        st.0.cb_post_start().await
-    }
-    async fn post_stop(&self, _myself: ActorRef<HMsg>, st: &mut Self::State) -> Result<(), ActorProcessingErr> {
-        st.0.cb_post_stop().await
-    }
-    async fn handle(&self, _myself: ActorRef<HMsg>, msg: HMsg, st: &mut Self::State) -> Result<(), ActorProcessingErr> {
-        st.0.cb_handle(msg).await
-    }
-    async fn handle_supervisor_evt(
-        &self,
-        _myself: ActorRef<HMsg>,
-        evt: SupervisionEvent,
-        st: &mut Self::State,
-    ) -> Result<(), ActorProcessingErr> {
+            async fn pre_start(&self, _myself: ActorRef<HMsg>, me: Me) -> Result<Self::State, ActorProcessingErr> {
+                me.cb_pre_start().await?;
+                Ok((me, Rc::new(())))
+            }
+            async fn post_start(&self, _myself: ActorRef<HMsg>, st: &mut Self::State) -> Result<(), ActorProcessingErr> {
+                st.0.cb_post_start().await
+            }
+            async fn post_stop(&self, _myself: ActorRef<HMsg>, st: &mut Self::State) -> Result<(), ActorProcessingErr> {
+                st.0.cb_post_stop().await
+            }
+            async fn handle(&self, _myself: ActorRef<HMsg>, msg: HMsg, st: &mut Self::State) -> Result<(), ActorProcessingErr> {
+                st.0.cb_handle(msg).await
+            }
+            $($extra)*
+        }
+    };
+}
+native_host!(HN, {
+    async fn handle_supervisor_evt(&self, _myself: ActorRef<HMsg>, evt: SupervisionEvent, st: &mut Self::State) -> Result<(), ActorProcessingErr> {
         st.0.cb_sup(evt).await
     }
-}
+});
+native_host!(HNT, {});
 
 fn u(s: &str) -> u64 {
     s.parse().unwrap_or_else(|_| panic!("bad number {s:?}"))
@@ -497,6 +617,12 @@ fn parse_script(s: &str) -> Script {
         Fin::Err(u(k))
     } else if let Some(k) = fin.strip_prefix('p') {
         Fin::Panic(u(k))
+    } else if let Some(k) = fin.strip_prefix('f') {
+        Fin::ErrBox(u(k))
+    } else if let Some(k) = fin.strip_prefix('q') {
+        Fin::PanicStr(u(k))
+    } else if let Some(k) = fin.strip_prefix('z') {
+        Fin::PanicAny(u(k))
     } else {
         panic!("bad fin {fin:?}")
     };
@@ -527,6 +653,7 @@ fn parse_cfg(s: &str) -> Cfg {
     let mut ps = None;
     let mut stop = None;
     let mut sup = None;
+    let mut tdef = false;
     let mut link = None;
     for kv in s.split_whitespace() {
         let (k, v) = kv.split_once('=').unwrap();
@@ -534,7 +661,10 @@ fn parse_cfg(s: &str) -> Cfg {
             "pre" => pre = Some(parse_script(v)),
             "ps" => ps = Some(parse_script(v)),
             "stop" => stop = Some(parse_script(v)),
-            "sup" => sup = if v == "def" { None } else { Some(parse_script(v)) },
+            "sup" => {
+                tdef = v == "tdef";
+                sup = if v == "def" || v == "tdef" { None } else { Some(parse_script(v)) }
+            }
             "link" => link = if v == "-" { None } else { Some(u(v) as usize) },
             _ => panic!("bad cfg key {k}"),
         }
@@ -544,6 +674,7 @@ fn parse_cfg(s: &str) -> Cfg {
         ps: ps.unwrap(),
         stop: stop.unwrap(),
         sup,
+        tdef,
         link,
     }
 }
@@ -847,6 +978,8 @@ async fn run_case(line: &str) -> String {
         msgs,
         start_abort: Mutex::new(HashMap::new()),
         loop_abort: Mutex::new(HashMap::new()),
+        finals: Mutex::new(HashMap::new()),
+        bad_state: Mutex::new(vec![]),
     });
     let local = if matches!(mode, Mode::LocalAdapter | Mode::LocalNative) { Some(Local::new().await) } else { None };
     let root: Option<ActorCell> = if mode == Mode::RemoteShim {
@@ -877,7 +1010,13 @@ async fn run_case(line: &str) -> String {
                     pid: REMOTE_PID.fetch_add(1, Ordering::SeqCst),
                 };
                 touch();
-                let mut fut = Box::pin(ractor::ActorRuntime::<HR>::spawn_linked_remote(None, HR(me), id, (), sup));
+                type RemoteSpawn =
+                    std::pin::Pin<Box<dyn std::future::Future<Output = Result<(ActorRef<HMsg>, JoinHandle<()>), SpawnErr>> + Send>>;
+                let mut fut: RemoteSpawn = if cfg.tdef {
+                    Box::pin(ractor::ActorRuntime::<HRT>::spawn_linked_remote(None, HRT(me), id, (), sup))
+                } else {
+                    Box::pin(ractor::ActorRuntime::<HR>::spawn_linked_remote(None, HR(me), id, (), sup))
+                };
                 let first = futures::poll!(fut.as_mut());
                 let ctx2 = ctx.clone();
                 let finish = move |ctx2: Arc<Ctx>, r: Result<(ActorRef<HMsg>, JoinHandle<()>), SpawnErr>| async move {
@@ -936,6 +1075,27 @@ async fn run_case(line: &str) -> String {
                 touch();
                 let res: Result<(ActorRef<HMsg>, JoinHandle<Result<JoinHandle<()>, SpawnErr>>), SpawnErr> =
                     match (mode, sup) {
+                        // sup=tdef: the twin host that leaves handle_supervisor_evt to the trait's default
+                        (Mode::Send, Some(s)) if cfg.tdef => ractor::ActorRuntime::<HT>::spawn_linked_instant(None, HT(me), (), s),
+                        (Mode::Send, None) if cfg.tdef => ractor::ActorRuntime::<HT>::spawn_instant(None, HT(me), ()),
+                        (Mode::LocalAdapter, Some(s)) if cfg.tdef => <HLT as ThreadLocalActor>::spawn_linked_instant(
+                            None,
+                            me,
+                            s,
+                            local.as_ref().unwrap().spawner.clone(),
+                        ),
+                        (Mode::LocalAdapter, None) if cfg.tdef => {
+                            <HLT as ThreadLocalActor>::spawn_instant(None, me, local.as_ref().unwrap().spawner.clone())
+                        }
+                        (Mode::LocalNative, Some(s)) if cfg.tdef => <HNT as ThreadLocalActor>::spawn_linked_instant(
+                            None,
+                            me,
+                            s,
+                            local.as_ref().unwrap().spawner.clone(),
+                        ),
+                        (Mode::LocalNative, None) if cfg.tdef => {
+                            <HNT as ThreadLocalActor>::spawn_instant(None, me, local.as_ref().unwrap().spawner.clone())
+                        }
                         (Mode::Send, Some(s)) => ractor::ActorRuntime::<H>::spawn_linked_instant(None, H(me), (), s),
                         (Mode::Send, None) => ractor::ActorRuntime::<H>::spawn_instant(None, H(me), ()),
                         // thread-local hosts: the cell exists at once, start() runs as a task of the
@@ -1002,7 +1162,8 @@ async fn run_case(line: &str) -> String {
                 let ctx2 = ctx.clone();
                 tokio::spawn(async move {
                     let res = match sup {
-                        Some(s) => ractor::ActorRuntime::<H>::spawn_linked(None, H(me), (), s).await,
+                        // (through the ActorCell convenience wrapper)
+                        Some(s) => s.spawn_linked(None, H(me), ()).await,
                         None => ractor::ActorRuntime::<H>::spawn(None, H(me), ()).await,
                     };
                     match res {
@@ -1022,6 +1183,11 @@ async fn run_case(line: &str) -> String {
                 let a = u(w[1]) as usize;
                 if let Some(c) = ctx.cell(a) {
                     touch();
+                    // every other driver send is made inside a tracing span: the message then carries
+                    // the span and the handler is run `.instrument(span)` (message_span_propogation)
+                    let n = SENDS.fetch_add(1, Ordering::SeqCst);
+                    let span = tracing::info_span!("drv-send");
+                    let _g = if n % 2 == 0 { Some(span.enter()) } else { None };
                     let r = ActorRef::<HMsg>::from(c).cast(HMsg(u(w[2])));
                     ctx.log(format!("TSent {a} {} {}", w[2], coq_bool(r.is_ok())));
                 }
@@ -1100,6 +1266,11 @@ async fn run_case(line: &str) -> String {
         .filter(|(_, c)| !matches!(c.get_status(), ActorStatus::Stopped | ActorStatus::Unstarted))
         .map(|(a, _)| *a)
         .collect();
+    let bad = ctx.bad_state.lock().unwrap().clone();
+    if !bad.is_empty() {
+        // read by lib/loopsim.py like SURVIVED-KILL
+        out.push_str(&format!(" (* BAD-STATE {} *)", bad.join(" ; ")));
+    }
     if !survivors.is_empty() {
         let ids: Vec<String> = survivors.iter().map(|a| a.to_string()).collect();
         out.push_str(&format!(" (* SURVIVED-KILL {} *)", ids.join(" ")));
@@ -1129,6 +1300,7 @@ async fn run_case(line: &str) -> String {
 fn main() {
     // a panicking script is part of the scenarios: keep stderr quiet
     std::panic::set_hook(Box::new(|_| {}));
+    let _ = tracing::subscriber::set_global_default(NullSub { next: AtomicU64::new(0), meta: Mutex::new(HashMap::new()) });
     for line in stdin_lines() {
         let rt = tokio::runtime::Builder::new_current_thread()
             .enable_time()
